@@ -19,6 +19,16 @@ registered through real entry points of fake distributions), grammar-generated s
       ``in`` / ``len`` report what is stored, live and on a freshly opened container (read-only
       second opening before, and the re-opened writable container after, every close).
 
+Child-schema instances in parent-typed fields: pydantic keeps an instance of a child schema as
+it is in a field typed with the parent, so the stored JSON carries the child's (possibly
+overriding) constants and extra members.  Histories and the schema half therefore also build
+instances whose schema-typed field values (single, in lists, inside Optional/Union) are replaced
+by instances of child schemas (installed: e.g. core.person / core.org inside schema.org Person /
+Organization fields of core.file, core.bib; family: FEntKid inside FHolder; generated children),
+attach them as instances, and validate the stored bytes against the embedded schema.  The model's
+typed values hold instances of exactly the declared schema, so these cases are covered by the
+code-only oracles (a)/(stored-invalid), not by ``C20_stored_validates``.
+
 An installed plugin whose class cannot be instantiated / cannot export its schema (on this
 tree: ``core.packerinfo``, unresolved ForwardRef) can never be the schema of a stored object; it is
 left out of the installed targets and recorded as an observation in the evidence, not a violation.
@@ -72,7 +82,7 @@ def _install(unis):
 def w_env(job):
     """All references of the harness families / universes / installed plugins with the
     plugin-side values, and which installed plugins have a usable instance builder."""
-    out = {"status": "ok", "entries": [], "installed": [], "broken_export": [], "inputs": {}}
+    out = {"status": "ok", "entries": [], "installed": [], "broken_export": [], "inputs": {}, "kid_inputs": {}}
     try:
         with vlib.time_limit(300):
             _install(job["unis"])
@@ -104,6 +114,22 @@ def w_env(job):
                     if good:
                         out["installed"].append([name, list(ver)])
                         out["inputs"][name] = good
+                        # inputs whose schema-typed field values can be replaced by instances of
+                        # child schemas (e.g. core.person inside a schema.org Person field)
+                        kids = []
+                        for t_ in range(40):
+                            try:
+                                inp = good[t_] if t_ < len(good) else S.gen_model_input(cls, rng, 0)
+                                obj = cls.parse_obj(inp)
+                                json.dumps(inp)
+                            except Exception:  # noqa: BLE001
+                                continue
+                            if S.childify(cls, obj, random.Random(0))[1]:
+                                kids.append(inp)
+                            if len(kids) >= 3:
+                                break
+                        if kids:
+                            out["kid_inputs"][name] = kids
     except Exception as ex:  # noqa: BLE001
         import traceback
         out["status"] = "worker-exception: " + _exc(ex) + " @ " + traceback.format_exc()[-600:]
@@ -176,7 +202,17 @@ def gen_history(rng, nops: int, targets: List[dict], envs: Dict[str, Any]) -> Li
                 inp = S.gen_obj_input(rng, envs[t["envkey"]], t["cname"], 0)
             else:
                 inp = copy.deepcopy(rng.choice(t["inputs"]))    # valid inputs found by w_env
-            ops.append(["attach", absname(p), ti, inp, iseed])
+            kid = False
+            if t["req"] == t["store"] and rng.random() < 0.5:
+                if t.get("kid_inputs"):
+                    inp, kid = copy.deepcopy(rng.choice(t["kid_inputs"])), True
+                elif t.get("kid_fields"):
+                    for _ in range(10):
+                        if any(a in inp for a in t["kid_fields"]):
+                            break
+                        inp = S.gen_obj_input(rng, envs[t["envkey"]], t["cname"], 0)
+                    kid = any(a in inp for a in t["kid_fields"])
+            ops.append(["attach", absname(p), ti, inp, iseed, kid])
             if t["store"] is not None and (p, t["req"][0]) not in mir.meta:
                 mir.meta.add((p, t["req"][0]))
         elif r < 0.68:
@@ -223,6 +259,57 @@ def gen_history(rng, nops: int, targets: List[dict], envs: Dict[str, Any]) -> Li
     if ops[-1][0] != "reopen":
         ops.append(["reopen"])
     return ops
+
+
+def _mentions_obj(t, names) -> bool:
+    if isinstance(t, str):
+        return False
+    if t[0] == "obj":
+        return t[1] in names
+    if t[0] in ("opt", "list"):
+        return _mentions_obj(t[1], names)
+    if t[0] == "union":
+        return any(_mentions_obj(a, names) for a in t[1:])
+    return False
+
+
+def kid_fields(env, cname) -> List[str]:
+    """Aliases of the fields of class `cname` typed with a class of the universe that has a
+    derived class (a child instance can stand in the parent-typed position)."""
+    parents = {c["base"] for c in env.values() if c["base"]}
+    anc = set()
+    for p in parents:                  # a child of a child also fits an ancestor-typed field
+        while p:
+            anc.add(p)
+            p = env[p]["base"]
+    return [f[1] for f in S.flat_fields(env, cname) if _mentions_obj(f[2], anc)]
+
+
+def kid_histories(rng, targets: List[dict], envs, limit: int) -> List[list]:
+    """Objects whose parent-typed fields hold instances of child schemas (which may override
+    inherited constants), attached at a dataset and a group, reopened."""
+    out = []
+    cand = [i for i, t in enumerate(targets) if t["req"] == t["store"] and (t.get("kid_inputs") or t.get("kid_fields"))]
+    cand.sort(key=lambda i: targets[i]["src"] == "gen")
+    for i in cand:
+        t = targets[i]
+        for rep in range(2):
+            if len(out) >= limit:
+                return out
+            if t.get("kid_inputs"):
+                inp = copy.deepcopy(t["kid_inputs"][rep % len(t["kid_inputs"])])
+            else:
+                inp = None
+                for _ in range(20):
+                    inp = S.gen_obj_input(rng, envs[t["envkey"]], t["cname"], 0)
+                    if any(a in inp for a in t["kid_fields"]):
+                        break
+                if not any(a in inp for a in t["kid_fields"]):
+                    continue
+            node = "/k" if rep else "/"
+            ops = ([["mkds", "/k"]] if rep else []) + [["attach", node, i, inp, rng.randrange(1 << 30), True], ["reopen"]]
+            out.append(ops)
+    return out
 
 
 def storable_pairs(entries: List[dict]) -> List[Tuple[list, list]]:
@@ -483,7 +570,14 @@ def exec_history(job) -> Dict[str, Any]:
                                 if inp is None:
                                     raise RuntimeError("no valid instance found")
                             st["input"] = inp
-                            mc[op[1]].meta[cls] = inp
+                            val = inp
+                            if len(op) > 5 and op[5]:
+                                # an instance whose parent-typed fields hold child-schema instances
+                                obj2, nk = S.childify(cls, cls.parse_obj(inp), random.Random(op[4]))
+                                if nk:
+                                    val = obj2
+                                    st["kids"] = nk
+                            mc[op[1]].meta[cls] = val
                         elif k == "detach":
                             del mc[op[1]].meta[op[2]]
                         elif k == "delete":
@@ -569,7 +663,7 @@ def w_schema(job) -> Dict[str, Any]:
             for c in uni["classes"]:
                 name = c["name"]
                 cls = classes[name]
-                rec: Dict[str, Any] = {"name": name, "instances": [], "mutants": []}
+                rec: Dict[str, Any] = {"name": name, "instances": [], "mutants": [], "kid_instances": []}
                 real = cls.schema()
                 rec["real_schema_sha"] = sha(json.dumps(real, sort_keys=True))
                 try:
@@ -601,6 +695,12 @@ def w_schema(job) -> Dict[str, Any]:
                     tab, _bad = S.norm_table(kinds, [inp, stored])
                     ir["tab"] = tab
                     rec["instances"].append(ir)
+                    obj2, nk = S.childify(cls, obj, random.Random(0))
+                    if nk:      # child-schema instances in parent-typed fields: code-only oracle
+                        st2 = json.loads(bytes(obj2).decode("utf-8"))
+                        ok2 = S.real_valid(real, st2, False)
+                        rec["kid_instances"].append({"input": inp, "stored": st2, "real_valid": ok2, "kids": nk,
+                                                     "errors": [] if ok2 else S.real_errors(real, st2)})
                     for _ in range(job["n_mut"]):
                         m = S.mutate_json(rng, stored)
                         rec["mutants"].append({"json": m, "real": S.real_valid(real, m, False),
@@ -617,7 +717,7 @@ def w_schema(job) -> Dict[str, Any]:
 def w_installed_schema(job) -> Dict[str, Any]:
     """Worker: one installed plugin: its schema in the fragment?  valid instances + mutants
     with the real validator's verdicts."""
-    res: Dict[str, Any] = {"status": "ok", "name": job["name"], "version": job["version"], "cases": []}
+    res: Dict[str, Any] = {"status": "ok", "name": job["name"], "version": job["version"], "cases": [], "kid_cases": []}
     try:
         with vlib.time_limit(240):
             from metador_core.plugins import schemas
@@ -645,6 +745,12 @@ def w_installed_schema(job) -> Dict[str, Any]:
                     m = S.mutate_json(rng, stored)
                     res["cases"].append({"json": m, "real": S.real_valid(real, m, False),
                                          "real_strict": S.real_valid(real, m, True), "valid_instance": False})
+                obj2, nk = S.childify(cls, obj, random.Random(0))
+                if nk:
+                    st2 = json.loads(bytes(obj2).decode("utf-8"))
+                    ok2 = S.real_valid(real, st2, False)
+                    res["kid_cases"].append({"stored": st2, "real_valid": ok2, "kids": nk,
+                                             "errors": [] if ok2 else S.real_errors(real, st2)})
     except vlib.CaseTimeout as e:
         res["status"] = "timeout: " + str(e)
     except Exception as e:  # noqa: BLE001
@@ -733,18 +839,19 @@ def run(ctx: vlib.Ctx):
         key = pname + "__" + ".".join(map(str, pver))
         e = env[key]
         targets.append({"src": "family", "cname": cn, "envkey": "family", "req": e["ref"],
-                        "store": None if e["aux"] else e["resolved"], "w": 3})
+                        "store": None if e["aux"] else e["resolved"], "w": 3,
+                        "kid_fields": kid_fields(envs["family"], cn)})
     for uid, uni in unis:
         envs[f"u{uid}"] = S.env_of(uni)
         plugins, _pk = S.universe_plugins(uni, uid)
         for cn, (pname, pver, aux) in plugins.items():
             e = env[pname + "__" + ".".join(map(str, pver))]
             targets.append({"src": "gen", "cname": cn, "uid": uid, "envkey": f"u{uid}", "req": e["ref"],
-                            "store": e["resolved"], "w": 1})
+                            "store": e["resolved"], "w": 1, "kid_fields": kid_fields(envs[f"u{uid}"], cn)})
     for name, ver in env_res["installed"]:
         e = env[name + "__" + ".".join(map(str, ver))]
         targets.append({"src": "inst", "cname": name, "req": e["ref"], "store": e["resolved"], "w": 1.5,
-                        "inputs": env_res["inputs"][name]})
+                        "inputs": env_res["inputs"][name], "kid_inputs": env_res["kid_inputs"].get(name, [])})
 
     # ---- histories
     n_hist = ctx.budget(16, 120)
@@ -752,6 +859,8 @@ def run(ctx: vlib.Ctx):
     hists = [gen_history(rng, rng.randint(nops // 2, nops), targets, envs) for _ in range(n_hist)]
     n_random = len(hists)
     hists += pattern_histories(rng, entries, targets, envs, ctx.budget(72, 320))
+    n_pattern = len(hists) - n_random
+    hists += kid_histories(rng, targets, envs, ctx.budget(24, 120))
     n_hist = len(hists)
     jobs = []
     for hid in range(n_hist):
@@ -769,6 +878,7 @@ def run(ctx: vlib.Ctx):
 
     evals = 0
     n_steps = 0
+    n_kid_objs = 0
     disagreements: List[dict] = []
     oracle_hits: Dict[str, dict] = {}
     stored_validated = 0
@@ -787,6 +897,7 @@ def run(ctx: vlib.Ctx):
         for i, st in enumerate(r["steps"]):
             evals += 1
             n_steps += 1
+            n_kid_objs += 1 if st.get("kids") and st["status"] == "ok" else 0
             stored_validated += st["n_validated"]
             if st["obs"] and st["obs"]["links"]:
                 states.add(json.dumps(st["obs"], sort_keys=True))
@@ -836,7 +947,7 @@ def run(ctx: vlib.Ctx):
         small = vlib.ddmin(list(ops), fails, budget=ctx.budget(30, 80))
         used_t = sorted({op[2] for op in small if op[0] == "attach"})
         ren = {t: i for i, t in enumerate(used_t)}
-        small2 = [([op[0], op[1], ren[op[2]], op[3], op[4]] if op[0] == "attach" else op) for op in small]
+        small2 = [([op[0], op[1], ren[op[2]], *op[3:]] if op[0] == "attach" else op) for op in small]
         rep = {"kind": "history", "oracle": kind, "drv": hit["drv"], "ops": small2,
                "targets": [targets[t] for t in used_t],
                "unis": [[uid, uni] for uid, uni in unis if any(targets[t].get("uid") == uid for t in used_t)],
@@ -872,6 +983,7 @@ def run(ctx: vlib.Ctx):
     outside = 0
     n_classes = 0
     stored_invalid: List[dict] = []
+    n_kid_inst = 0
     for jb, r in zip(sjobs, sres):
         if r["status"] != "ok":
             disagreements.append({"kind": "schema-worker", "uid": jb["uid"], "status": r["status"][:500]})
@@ -895,6 +1007,12 @@ def run(ctx: vlib.Ctx):
                 if "tval" in ir and S.json_ascii(ir["stored"]) and S.json_ascii(ir["tab"]):
                     cases.append(["schema", ["conf", ir["tab"], mty, ir["tval"]]])
                     meta.append(("conf", jb["uid"], rec["name"], ir, envu))
+            for kr in rec["kid_instances"]:
+                evals += 1
+                n_kid_inst += 1
+                if not kr["real_valid"]:
+                    stored_invalid.append({"uid": jb["uid"], "class": rec["name"], "input": kr["input"], "stored": kr["stored"],
+                                           "errors": kr["errors"], "kid": True})
             if "jschema" in rec:
                 for strict in (False, True):
                     js = [m for m in rec["mutants"] if S.json_ascii(m["json"])]
@@ -910,6 +1028,11 @@ def run(ctx: vlib.Ctx):
             evals += 1
             if c["valid_instance"] and not c["real"]:
                 stored_invalid.append({"installed": jb["name"], "stored": c["json"], "errors": c.get("errors")})
+        for kr in r["kid_cases"]:
+            evals += 1
+            n_kid_inst += 1
+            if not kr["real_valid"]:
+                stored_invalid.append({"installed": jb["name"], "stored": kr["stored"], "errors": kr["errors"], "kid": True})
         if "jschema" in r:
             inst_in_fragment += 1
             for strict in (False, True):
@@ -1004,7 +1127,9 @@ def run(ctx: vlib.Ctx):
                    "instances that the real validator rejects")
     cov["exhaustive"] = False
     cov["input_distribution"] = {
-        "histories": n_hist, "random_histories": n_random, "pattern_histories": n_hist - n_random,
+        "histories": n_hist, "random_histories": n_random, "pattern_histories": n_pattern, "child_instance_histories": n_hist - n_random - n_pattern,
+        "stored_objects_holding_child_instances": n_kid_objs,
+        "child_holding_instances_validated_against_exported_schema": n_kid_inst,
         "storable_parent_child_pairs": len(storable_pairs(entries)), "drivers": 2, "steps": sum(len(r["steps"]) for r in hres if r["status"] == "ok"),
         "stored_objects_validated_with_jsonschema": stored_validated, "distinct_states": len(states),
         "targets": {"family": len(S.FAMILY_PLUGINS), "generated": sum(1 for t in targets if t["src"] == "gen"),
@@ -1024,6 +1149,11 @@ def run(ctx: vlib.Ctx):
         "an attached object is identified with its TOC link in Toc/SelfDesc.v (their bijection is property C06); the user tree is not modelled (C08)",
         "environment premises env_wf (provider lists the schema; one provider per schema; one info per package id; parent_path prefix-closed for storable references) are facts about the plugin system: evaluated on the live plugin-side table in every run (check_env_wf), not proved",
     ]
+    cov["trusted_base"].append(
+        "C20_stored_validates speaks about values whose nested objects are instances of exactly the declared schema "
+        "(the typed values of Schema/RoundTrip.v); a child-schema instance in a parent-typed field (overridden constants, "
+        "extra members) is outside the model and covered by the code-only jsonschema oracle on stored bytes - export lists "
+        "constant names with the schema `true`, so any constant value is accepted there (see Example C20_nonvacuous, last line)")
     ctx.assumptions += ["model strings are ASCII (non-ASCII instances are validated with the real validator only)",
                         "the plugin environment does not change during a history",
                         "set members are pairwise different as JSON values (premise juniq; follows from validity for plain member types)"]
@@ -1130,6 +1260,8 @@ def replay(rep) -> int:
             cls = classes[case["class"]]
             real = cls.schema()
             obj = cls.parse_obj(case["input"])
+        if case.get("kid"):
+            obj = S.childify(cls, obj, random.Random(0))[0]
         stored = json.loads(bytes(obj).decode("utf-8"))
         errs = S.real_errors(real, stored)
         print("\n".join(errs) if errs else "no longer failing")
